@@ -412,10 +412,18 @@ func runOp(op map[string]any) any {
 	if rep <= 1 && par <= 1 {
 		return first
 	}
-	want, _ := json.Marshal(first)
+	statusOnly, _ := op["status_only_errors"].(bool)
+	norm := func(v any) []byte {
+		if statusOnly {
+			v = stripErrors(v)
+		}
+		b, _ := json.Marshal(v)
+		return b
+	}
+	want := norm(first)
 	for i := 1; i < int(rep); i++ {
 		r, _ := dispatch(op)
-		got, _ := json.Marshal(r)
+		got := norm(r)
 		if string(got) != string(want) {
 			return map[string]any{"nondet": []any{first, r}, "mode": "sequential"}
 		}
@@ -433,7 +441,7 @@ func runOp(op map[string]any) any {
 		}
 		wg.Wait()
 		for _, r := range results {
-			got, _ := json.Marshal(r)
+			got := norm(r)
 			if string(got) != string(want) {
 				return map[string]any{"nondet": []any{first, r}, "mode": "concurrent"}
 			}
@@ -443,6 +451,30 @@ func runOp(op map[string]any) any {
 		m["runs"] = int(rep) + int(par)
 	}
 	return first
+}
+
+// stripErrors replaces every {"err":..., "msg":...} step result by {"err":true}: which bad key
+// an unordered map walk meets first may change the error text and class, never the status.
+func stripErrors(v any) any {
+	m, ok := v.(map[string]any)
+	if !ok {
+		return v
+	}
+	res, ok := m["res"].([]any)
+	if !ok {
+		return v
+	}
+	out := make([]any, 0, len(res))
+	for _, r := range res {
+		if rm, ok := r.(map[string]any); ok {
+			if _, isErr := rm["err"]; isErr {
+				out = append(out, map[string]any{"err": true})
+				continue
+			}
+		}
+		out = append(out, r)
+	}
+	return map[string]any{"res": out}
 }
 
 func main() {
